@@ -114,6 +114,14 @@ def decide_equal(ex, o, got, want, extra=()):
     return ex.model(o.pc, got != want, *ax, *extra), "sat"
 
 
+_TASKS = {}
+
+
+def _task_worker(i):
+    name, mk, spec, assume = _TASKS["tasks"][i]
+    return _TASKS["do"](name, mk, spec, assume)
+
+
 def sizes_family(world: World, res: Result, tier: str, kf=None):
     try:
         f_mem = world.fn("Value", "to_ex_mem_with_semantics")
@@ -124,7 +132,12 @@ def sizes_family(world: World, res: Result, tier: str, kf=None):
     sems = ["A", "B", "C", "D", "E"]
     ity = world.adt("Type", "Integer")
 
+    tasks = []
+
     def run_one(name, mk, spec_for_sem, assume=()):
+        tasks.append((name, mk, spec_for_sem, assume))
+
+    def do_one(name, mk, spec_for_sem, assume=()):
         ob = Obligation(f"sizes/{name}", "discharged", "")
         ex = world.executor(timeout_ms=30000, max_paths=600, max_steps=60000)
         npaths = 0
@@ -167,8 +180,7 @@ def sizes_family(world: World, res: Result, tier: str, kf=None):
             ob.detail = f"{npaths} paths x semantics A-E: measure equals the ledger's"
             ob.witness = npaths > 0
         ob.queries, ob.solver_s = ex.queries, round(ex.solver_s, 3)
-        res.functions.update(ex.encoded)
-        res.add(ob)
+        return ob, dict(ex.encoded)
 
     # integers: every digit count around the 64-bit word boundaries
     KS = (0, 1, 2, 7, 8, 9, 16, 17, 32) if tier == "quick" else tuple(range(0, 34)) + (40, 64, 65, 128)
@@ -274,6 +286,20 @@ def sizes_family(world: World, res: Result, tier: str, kf=None):
                 st.pc += [c]
                 return world.con(world.adt("Constant", "Data", v)), {"e": si}
             run_one(f"data/int-{rep}/{kd}digits", mkbig, lambda sem, lv: 4 + int_mem(lv["e"]))
+
+    # run the collected obligations in forked workers (closures are inherited by fork, only the index is sent)
+    import multiprocessing as mp
+    import os
+    _TASKS["tasks"], _TASKS["do"] = tasks, do_one
+    n = min(14, os.cpu_count() or 4, len(tasks))
+    if n <= 1:
+        parts = [_task_worker(i) for i in range(len(tasks))]
+    else:
+        with mp.get_context("fork").Pool(n) as pool:
+            parts = pool.map(_task_worker, range(len(tasks)), chunksize=1)
+    for ob_, enc in parts:
+        res.add(ob_)
+        res.functions.update(enc)
 
     # integer_log2 alone
     ob = Obligation("sizes/integer_log2", "discharged", "")
